@@ -144,11 +144,15 @@ fn c14_tinylfu(shard: &mut Shard, counters: u64, seed: u64) {
     let mut window: HashMap<u64, u64> = HashMap::new();
     let mut in_window = 0u64;
     let mut seen_in_window: BTreeSet<u64> = BTreeSet::new();
-    let total_accesses = (counters * 3 + 7).min(600);
+    let total_accesses = (counters * 3 + 7).min(600) + if (3..=64).contains(&counters) { 2 * counters } else { 0 };
     let mut n = 0;
+    let mut distinct_left = 0u64;
     while n < total_accesses {
+        // now and then a whole ageing window consists of first accesses of keys never seen before (only the first-access filter is touched):
+        // the ageing at its end must still halve what earlier windows left in the sketch
+        if distinct_left == 0 && in_window == 0 && n > 0 && (3..=64).contains(&counters) && rng.chance(1, 3) { distinct_left = counters; shard.counts.inc("windows_of_first_accesses_only"); }
         // single accesses and small batches, so that batches cross the reset boundary too
-        let batch: Vec<u64> = if rng.chance(1, 4) { (0..rng.range(2, 5)).map(|_| *rng.pick(&hashes)).collect() } else { vec![if rng.chance(1, 2) { hashes[0] } else { *rng.pick(&hashes) }] };
+        let batch: Vec<u64> = if distinct_left > 0 { distinct_left -= 1; vec![rng.next() | 1] } else if rng.chance(1, 4) { (0..rng.range(2, 5)).map(|_| *rng.pick(&hashes)).collect() } else { vec![if rng.chance(1, 2) { hashes[0] } else { *rng.pick(&hashes) }] };
         let before = lfu.matrix();
         let seeds = lfu.seeds();
         let total = before[0].len() as u64;
